@@ -75,7 +75,12 @@ Step ==
                 alien == {x \in srv : ~(\E y \in ToSet(All(c)) : y.k = x[1] /\ y.v = x[2])}
                 v12 == IF dead # {} THEN v11 \cup {<<"C03", tid, l, "entry_expired_before_the_load_served_after_it">>} ELSE v11
                 v13 == IF alien # {} THEN v12 \cup {<<"C11", tid, l, "loaded_cache_serves_value_that_was_not_saved">>} ELSE v12
-            IN /\ viol' = v13 /\ div' = div + (IF same THEN 0 ELSE 1) /\ nload' = nload + 1
+                \* ... and every loaded entry that is not about to expire is reachable by its key (C11; C18: the key
+                \* addresses the restored entry - it sits in the shard its hash selects)
+                reach == {x \in ToSet(actual.win \o actual.pt \o actual.pb) : x.dl = 0 \/ x.dl > now + 2000}
+                lostk == IF clean /\ Ev.err = "none" THEN {x \in reach : <<x.k, x.v>> \notin srv} ELSE {}
+                v14 == IF lostk # {} THEN v13 \cup {<<"C11", tid, l, "loaded_entry_not_reachable_by_its_key">>, <<"C18", tid, l, "restored_entry_not_addressed_by_its_key">>} ELSE v13
+            IN /\ viol' = v14 /\ div' = div + (IF same THEN 0 ELSE 1) /\ nload' = nload + 1
                /\ UNCHANGED <<tid, sv, nbyte, nseg>>
        [] Ev.ev = "byteload" ->
             LET ar == [err |-> Ev.err, win |-> Ents(Ev.win), pt |-> Ents(Ev.pt), pb |-> Ents(Ev.pb),
